@@ -29,6 +29,11 @@ def showHOut : HOut → String
   | .ok => "ok" | .structError => "struct-error" | .keyError => "key-error" | .indexError => "index-error"
   | .exit => "exit" | .value v => s!"value {v}"
 
+def showSOut : SOut → String
+  | .loaded o => showHOut o
+  | .dict o => showOut o
+  | .hvar o => showHOut o
+
 def step (j : Json) : Option String := do
   let keyF ← fmts (← fArr j "key")
   let valF ← fmts (← fArr j "value")
@@ -43,43 +48,48 @@ def step (j : Json) : Option String := do
   let ck ← ints (← field cst "k")
   let cv ← ints (← field cst "v")
   let layout := s!"key@-{D.keyDepth} value@-{D.valDepth} K={D.K} V={D.V} koff={showNats (offsets 0 keyF)} voff={showNats (offsets 0 valF)}"
-  let (h0, lres) := hvStep vars [] .load
-  let mut outs : List String := [layout ++ " load=" ++ showHOut lres]
-  let mut m : KMap := []
-  let mut h : KMap := h0
   let stack0 := Ebv.Bytes.zeros stackSize
+  -- program 0 is created and loaded first; `["new", j]` creates program j (again), `["on", j, op]` is `op` on program j
+  let (sys0, lres) := sysStep D stack0 vars emptySys (.new 0)
+  let mut outs : List String := [layout ++ " load=" ++ showSOut lres]
+  let mut sys : Sys := sys0
   for o in ← fArr j "ops" do
-    let a ← jArr o
-    let kind ← jStr (← a.head?)
-    let arg (i : Nat) : Option Json := a[i]?
-    let dop : Option Op ← (match kind with
-      | "py_set" => do pure (some (.pySet (← ints (← arg 1)) (← ints (← arg 2))))
-      | "py_get" => do pure (some (.pyGet (← ints (← arg 1))))
-      | "py_del" => do pure (some (.pyDel (← ints (← arg 1))))
-      | "py_pop" => do pure (some (.pyPop (← ints (← arg 1))))
-      | "py_iter" => pure (some .pyIter)
-      | "pr_update" => do pure (some (.prUpdate (← ints (← arg 1)) (← ints (← arg 2)) (← jNat (← arg 3))))
-      | "pr_const" => pure (some (.prUpdate ck cv 0))
-      | "pr_lookup" => do pure (some (.prLookup (← ints (← arg 1))))
-      | "pr_modify" => do pure (some (.prModify (← ints (← arg 1)) (← ints (← arg 2))))
-      | _ => pure none : Option (Option Op))
-    match dop with
-    | some op =>
-      let (m', out) := cStep D stack0 m op
-      m := m'
-      outs := outs ++ [showOut out]
-    | none =>
-      let hop : HOp ← (match kind with
-        | "hv_load" => pure .load
-        | "hv_py_get" => do pure (.pyGet (← jNat (← arg 1)))
-        | "hv_py_set" => do pure (.pySet (← jNat (← arg 1)) (← jInt (← arg 2)) (← jBool (← arg 3)))
-        | "hv_pr_get" => do pure (.prGet (← jNat (← arg 1)))
-        | "hv_pr_set" => do pure (.prSet (← jNat (← arg 1)) (← jInt (← arg 2)))
-        | "hv_pr_add" => do pure (.prAdd (← jNat (← arg 1)) (← jInt (← arg 2)))
-        | _ => none : Option HOp)
-      let (h', out) := hvStep vars h hop
-      h := h'
-      outs := outs ++ [showHOut out]
+    let a0 ← jArr o
+    let kind0 ← jStr (← a0.head?)
+    if kind0 == "new" then
+      let (s', out) := sysStep D stack0 vars sys (.new (← jNat (← a0[1]?)))
+      sys := s'
+      outs := outs ++ ["new " ++ showSOut out]
+    else
+      let (inst, a) ← (if kind0 == "on" then do pure (← jNat (← a0[1]?), ← jArr (← a0[2]?)) else pure (0, a0) : Option (Nat × List Json))
+      let kind ← jStr (← a.head?)
+      let arg (i : Nat) : Option Json := a[i]?
+      let dop : Option Op ← (match kind with
+        | "py_set" => do pure (some (.pySet (← ints (← arg 1)) (← ints (← arg 2))))
+        | "py_get" => do pure (some (.pyGet (← ints (← arg 1))))
+        | "py_del" => do pure (some (.pyDel (← ints (← arg 1))))
+        | "py_pop" => do pure (some (.pyPop (← ints (← arg 1))))
+        | "py_iter" => pure (some .pyIter)
+        | "pr_update" => do pure (some (.prUpdate (← ints (← arg 1)) (← ints (← arg 2)) (← jNat (← arg 3))))
+        | "pr_const" => pure (some (.prUpdate ck cv 0))
+        | "pr_lookup" => do pure (some (.prLookup (← ints (← arg 1))))
+        | "pr_modify" => do pure (some (.prModify (← ints (← arg 1)) (← ints (← arg 2))))
+        | _ => pure none : Option (Option Op))
+      let sop : SOp ← (match dop with
+        | some op => pure (.dict inst op)
+        | none => do
+          let hop : HOp ← (match kind with
+            | "hv_load" => pure .load
+            | "hv_py_get" => do pure (.pyGet (← jNat (← arg 1)))
+            | "hv_py_set" => do pure (.pySet (← jNat (← arg 1)) (← jInt (← arg 2)) (← jBool (← arg 3)))
+            | "hv_pr_get" => do pure (.prGet (← jNat (← arg 1)))
+            | "hv_pr_set" => do pure (.prSet (← jNat (← arg 1)) (← jInt (← arg 2)))
+            | "hv_pr_add" => do pure (.prAdd (← jNat (← arg 1)) (← jInt (← arg 2)))
+            | _ => none : Option HOp)
+          pure (.hvar inst hop) : Option SOp)
+      let (s', out) := sysStep D stack0 vars sys sop
+      sys := s'
+      outs := outs ++ [showSOut out]
   pure (" | ".intercalate outs)
 
 def main : IO Unit := driverMain step
